@@ -404,6 +404,10 @@ func waitAllObligation(c *Check, rule string, fn *ssa.Function, submits []ssa.Ca
 		c.Bad(rule, key, "a success return is reachable after a task's Wait returned an error", c.P.InstrPos(at))
 		return
 	}
+	if again, _ := engine.PathExists(fn, w, engine.IsInstr(w), engine.PathQuery{CutEdge: engine.NilErrEdgesOf(w)}); again {
+		c.Bad(rule, key, "the error of one task's Wait is overwritten by the next iteration before it is tested: only the last task's failure is noticed, so a missing or unwritable earlier output still yields a result", c.P.InstrPos(w))
+		return
+	}
 	if why := lp.EarlyExitReaches(isSuccess); why != "" {
 		c.Bad(rule, key, "the wait loop can be left early towards a success return: "+why, c.P.InstrPos(w))
 		return
